@@ -43,7 +43,16 @@ Inductive bstmt :=
 | BUkvCallRet (p : stmt) (args : list (string * bexpr))  (* return self._ukvfile.<method>(args) *)
 | BKeysFromUkv (e : expr)              (* self._keys = {k.decode() for k in self._ukvfile.keys()}   e: what keys() returns *)
 | BKeysAddQueued                       (* self._keys.update(k for k, _ in self._write_queue) *)
-| BUkvNew (p : stmt) (args : list (string * bexpr)).    (* self._ukvfile = UKVFile(...)      p: the translated __init__ *)
+| BUkvNew (p : stmt) (args : list (string * bexpr))     (* self._ukvfile = UKVFile(...)      p: the translated __init__ *)
+(* the session context managers reading() / writing(): generator functions split at their single `yield self` into the part
+   that runs on entry and the part that runs on (normal) exit; try/finally around the yield becomes BTryReraise on the entry side
+   (the finaliser runs only if the entry fails) and BTryFinally on the exit side *)
+| BSetState (x : sess)                 (* self._state = "idle" / "reading" / "writing" *)
+| BTryFinally (body fin : bstmt)       (* try: body  finally: fin *)
+| BAcquire (w : bool)                  (* if not self._lock.acquire_{read,write}_lock(timeout=timeout): raise TimeoutError(...) *)
+| BRelease (w : bool)                  (* self._lock.release_{read,write}_lock() *)
+| BAcquireOdd (w : bool) (how : string).   (* the same acquisition with any OTHER argument list than (timeout=timeout): fasteners would take the
+                                              value for another parameter (blocking, delay, ...); not understood, so it fails here *)
 
 Record bstate := mkbs {
   inner : state;                       (* the UKVFile object and the file *)
@@ -51,7 +60,8 @@ Record bstate := mkbs {
   bq : list (bytes * bytes);           (* _write_queue, oldest first *)
   bks : list bytes;                    (* _keys *)
   bused : Z; bbuf : Z; bro : bool;
-  bsess : sess;                        (* _state: set by reading() / writing(), which are not translated; only read here *)
+  bsess : sess;                        (* _state *)
+  bheld : option bool;                 (* the inter-process lock as this object holds it: None / Some false = read / Some true = write *)
   bloc : string -> option bytes
 }.
 
@@ -93,10 +103,10 @@ Definition beval_val (s : bstate) (e : bexpr) : option val :=
   end.
 
 Definition set_bloc (s : bstate) (x : string) (v : bytes) : bstate :=
-  mkbs (inner s) (has_inner s) (bq s) (bks s) (bused s) (bbuf s) (bro s) (bsess s) (fun y => if String.eqb x y then Some v else bloc s y).
+  mkbs (inner s) (has_inner s) (bq s) (bks s) (bused s) (bbuf s) (bro s) (bsess s) (bheld s) (fun y => if String.eqb x y then Some v else bloc s y).
 
 Definition restore_loc (s : bstate) (l : string -> option bytes) : bstate :=
-  mkbs (inner s) (has_inner s) (bq s) (bks s) (bused s) (bbuf s) (bro s) (bsess s) l.
+  mkbs (inner s) (has_inner s) (bq s) (bks s) (bused s) (bbuf s) (bro s) (bsess s) (bheld s) l.
 
 (* bind the arguments of a call on the inner object: its parameters become locals of the inner MiniPy state *)
 Fixpoint bind_inner (s : bstate) (st : state) (args : list (string * bexpr)) : option state :=
@@ -108,7 +118,7 @@ Fixpoint bind_inner (s : bstate) (st : state) (args : list (string * bexpr)) : o
   end.
 
 Definition with_inner (s : bstate) (st : state) : bstate :=
-  mkbs st (has_inner s) (bq s) (bks s) (bused s) (bbuf s) (bro s) (bsess s) (bloc s).
+  mkbs st (has_inner s) (bq s) (bks s) (bused s) (bbuf s) (bro s) (bsess s) (bheld s) (bloc s).
 
 Fixpoint bwloop (eb : bstate -> bstate * boutcome) (kx vx : string) (n : nat) (s : bstate) : bstate * boutcome :=
   match n with
@@ -117,7 +127,7 @@ Fixpoint bwloop (eb : bstate -> bstate * boutcome) (kx vx : string) (n : nat) (s
       match bq s with
       | [] => (s, BONormal)
       | (k, v) :: q' =>
-          let s1 := set_bloc (set_bloc (mkbs (inner s) (has_inner s) q' (bks s) (bused s) (bbuf s) (bro s) (bsess s) (bloc s)) kx k) vx v in
+          let s1 := set_bloc (set_bloc (mkbs (inner s) (has_inner s) q' (bks s) (bused s) (bbuf s) (bro s) (bsess s) (bheld s) (bloc s)) kx k) vx v in
           let '(s2, o) := eb s1 in
           match o with
           | BONormal => bwloop eb kx vx n' s2
@@ -137,17 +147,17 @@ Fixpoint bexec (fuel : nat) (c : bstmt) (s : bstate) {struct c} : bstate * boutc
   | BRaise e => (s, BORaise e)
   | BQueueAppend k v =>
       match beval_bytes s k, beval_bytes s v with
-      | Some kb, Some vb => (mkbs (inner s) (has_inner s) (bq s ++ [(kb, vb)]) (bks s) (bused s) (bbuf s) (bro s) (bsess s) (bloc s), BONormal)
+      | Some kb, Some vb => (mkbs (inner s) (has_inner s) (bq s ++ [(kb, vb)]) (bks s) (bused s) (bbuf s) (bro s) (bsess s) (bheld s) (bloc s), BONormal)
       | _, _ => (s, BORaise BAttr) end
   | BKeysAdd k =>
       match beval_bytes s k with
-      | Some kb => (mkbs (inner s) (has_inner s) (bq s) (set_add (bks s) kb) (bused s) (bbuf s) (bro s) (bsess s) (bloc s), BONormal)
+      | Some kb => (mkbs (inner s) (has_inner s) (bq s) (set_add (bks s) kb) (bused s) (bbuf s) (bro s) (bsess s) (bheld s) (bloc s), BONormal)
       | None => (s, BORaise BAttr) end
   | BUsedAddLens k v =>
       match beval_bytes s k, beval_bytes s v with
-      | Some kb, Some vb => (mkbs (inner s) (has_inner s) (bq s) (bks s) (bused s + Z.of_N (len kb) + Z.of_N (len vb))%Z (bbuf s) (bro s) (bsess s) (bloc s), BONormal)
+      | Some kb, Some vb => (mkbs (inner s) (has_inner s) (bq s) (bks s) (bused s + Z.of_N (len kb) + Z.of_N (len vb))%Z (bbuf s) (bro s) (bsess s) (bheld s) (bloc s), BONormal)
       | _, _ => (s, BORaise BAttr) end
-  | BUsedReset => (mkbs (inner s) (has_inner s) (bq s) (bks s) 0%Z (bbuf s) (bro s) (bsess s) (bloc s), BONormal)
+  | BUsedReset => (mkbs (inner s) (has_inner s) (bq s) (bks s) 0%Z (bbuf s) (bro s) (bsess s) (bheld s) (bloc s), BONormal)
   | BCall body => let '(s1, o) := bexec fuel body s in                (* the callee has its own local variables: *)
                   (restore_loc s1 (bloc s), match o with BOReturn _ => BONormal | _ => o end)    (* the caller's come back *)
   | BCallRet body => let '(s1, o) := bexec fuel body s in
@@ -184,11 +194,11 @@ Fixpoint bexec (fuel : nat) (c : bstmt) (s : bstate) {struct c} : bstate * boutc
   | BKeysFromUkv e =>
       if negb (has_inner s) then (s, BORaise BAttr) else
       match eval (inner s) e with
-      | Val (VToc t) => (mkbs (inner s) (has_inner s) (bq s) (map fst t) (bused s) (bbuf s) (bro s) (bsess s) (bloc s), BONormal)
+      | Val (VToc t) => (mkbs (inner s) (has_inner s) (bq s) (map fst t) (bused s) (bbuf s) (bro s) (bsess s) (bheld s) (bloc s), BONormal)
       | _ => (s, BORaise BAttr)
       end
   | BKeysAddQueued =>
-      (mkbs (inner s) (has_inner s) (bq s) (set_union (bks s) (map fst (bq s))) (bused s) (bbuf s) (bro s) (bsess s) (bloc s), BONormal)
+      (mkbs (inner s) (has_inner s) (bq s) (set_union (bks s) (map fst (bq s))) (bused s) (bbuf s) (bro s) (bsess s) (bheld s) (bloc s), BONormal)
   | BUkvNew p args =>
       (* a new object: no attributes, no stream yet; the attribute _ukvfile is set only if the constructor returns *)
       match bind_inner s (mkst (file (inner s)) (mks 0 false true) empty_env empty_env) args with
@@ -197,7 +207,24 @@ Fixpoint bexec (fuel : nat) (c : bstmt) (s : bstate) {struct c} : bstate * boutc
           let '(st', o) := exec fuel p st in
           match o with
           | ORaise x => (with_inner s (mkst (file st') (strm (inner s)) (attrs (inner s)) (locals (inner s))), BORaise (berr_of_exn x))
-          | _ => (mkbs st' true (bq s) (bks s) (bused s) (bbuf s) (bro s) (bsess s) (bloc s), BONormal)
+          | _ => (mkbs st' true (bq s) (bks s) (bused s) (bbuf s) (bro s) (bsess s) (bheld s) (bloc s), BONormal)
           end
+      end
+  | BSetState x => (mkbs (inner s) (has_inner s) (bq s) (bks s) (bused s) (bbuf s) (bro s) x (bheld s) (bloc s), BONormal)
+  | BTryFinally body fin =>
+      let '(s1, o) := bexec fuel body s in
+      let '(s2, o2) := bexec fuel fin s1 in
+      (s2, match o2 with BONormal => o | _ => o2 end)        (* an exception (or return) of the finaliser replaces the body's outcome *)
+  | BAcquire w =>
+      match bheld s with
+      | None => (mkbs (inner s) (has_inner s) (bq s) (bks s) (bused s) (bbuf s) (bro s) (bsess s) (Some w) (bloc s), BONormal)
+      | Some _ => (s, BORaise BIO)          (* a second session of the same object: the acquisition times out (TimeoutError is an OSError) *)
+      end
+  | BAcquireOdd _ _ => (s, BORaise BAttr)
+  | BRelease w =>
+      match bheld s with
+      | Some w' => if Bool.eqb w w' then (mkbs (inner s) (has_inner s) (bq s) (bks s) (bused s) (bbuf s) (bro s) (bsess s) None (bloc s), BONormal)
+                   else (s, BORaise BAttr)
+      | None => (s, BORaise BAttr)          (* releasing a lock that is not held raises *)
       end
   end.
